@@ -71,6 +71,10 @@ def run_case(case, ctx):
             if after.get(oid) != o.dst_before[oid]:
                 viols.append(Viol("dest-object-altered", f"pre-existing destination object {oid} changed"))
                 break
+        if o.src_before is not None and o.vanished:
+            for oid in o.vanished:  # removed by the harness itself (models another process)
+                o.src_before.pop(oid, None)
+                o.src_after.pop(oid, None)
         if o.src_before is not None and o.src_after != o.src_before:
             viols.append(Viol("source-modified", "the source store changed during the transfer"))
         # wrong bytes must never stay under a name in the destination
